@@ -1,23 +1,16 @@
 SPECIFICATION Spec
 CONSTANTS
   MaxTop = 3
-  MaxBlocks = 2
+  MaxBlocks = 1
   MaxSubs = 2
-  MaxStmts = 2
-  MaxNotes = 2
+  MaxStmts = 1
+  MaxNotes = 1
   MaxDirs = 1
   MaxNons = 1
   WordCounts = {1}
-  GenBlockTypes = {"c", "i"}
+  GenBlockTypes = {"c"}
   Rich = FALSE
-  Phased = FALSE
-INVARIANT Tiles
-INVARIANT BlocksOnSubs
-INVARIANT StmtsOk
-INVARIANT MRanges
-INVARIANT Attached
-INVARIANT IgnoreHasComment
-INVARIANT OneEach
-INVARIANT BlankSpans
+  Phased = TRUE
+INVARIANT WellFormed
 VIEW View
 CHECK_DEADLOCK FALSE
